@@ -126,7 +126,7 @@ def run(ctx):
         ctx.bad('C09.1-count-once', 'is_complete', 'is_complete does not compare received_count with the total for equality', key='SHAPE:%s::is_complete' % FM)
 
     # ---------------- clause 2/3: completion consumes the entry; keys are the call's own sequence id ----------
-    ctx.rule('C09.2-completion-consumes', 'a completed message handed to reassemble was removed from `pending` (or never inserted); reassemble takes the message by value', floor=3)
+    ctx.rule('C09.2-completion-consumes', 'a completed message handed to reassemble was removed from `pending` (or never inserted); reassemble takes the message by value', floor=2)
     ctx.rule('C09.3-own-key', 'every access to `pending` in start_fragment/add_fragment is keyed by the call\'s own sequence id', floor=5)
     sig = ctx.F.fns.get(FM + '::reassemble')
     if ctx.anchor(sig is not None, FM + '::reassemble'):
@@ -146,7 +146,9 @@ def run(ctx):
         ctx.anchor(seq is not None, FA + '::' + fn + ':sequence_id')
         for bb, t in B.calls():
             names = callee_names(t)
-            if is_call_to(t, FM + '::reassemble'):
+            via_item = any(a['k'] == 'c' and a.get('fn') == FM + '::reassemble' for a in t['args'])
+            if is_call_to(t, FM + '::reassemble') or via_item:
+                # direct call, or `pending.remove(&id).and_then(FragmentedMessage::reassemble)`
                 base, projs = unwrap(B.origin(t['args'][0]))
                 src = None
                 if base[0] == 'call' and base[1] and base[1].endswith('HashMap::<K, V, S, A>::remove'):
@@ -264,6 +266,59 @@ def run(ctx):
             ctx.bad('C09.7-transfer-buffered', 'set_total_fragments', 'buffered continuations are not transferred into the slots (drains=%d): a sequence whose continuation arrived before the header never completes' % len(drains),
                     ctx.where(B), key='PROV:%s::set_total_fragments:no-transfer' % FM)
 
+
+    # the header's atom-cache section reaches the message whichever fragment arrived first
+    SB = P.B(FA + '::start_fragment')
+    ctx.rule('C09.7-header-data-kept', 'start_fragment stores the header\'s atom_cache_data in the message on both ways in (new sequence, or header after buffered continuations): '
+             'otherwise the reassembled bytes depend on the arrival order', floor=1)
+    if ctx.anchor(SB is not None, FA + '::start_fragment'):
+        ac = [i for i in range(1, SB.b['argc'] + 1) if SB.local_name(i) == 'atom_cache_data']
+        if ctx.anchor(bool(ac), FA + '::start_fragment: atom_cache_data parameter'):
+            d = SB.derived_locals(ac) | set(ac)
+            sinks = []
+            for bb, t in SB.calls():
+                if is_call_to(t, FM + '::new') and any(l in d for a in t['args'] for l in SB._op_locals(a)):
+                    sinks.append(bb)
+            for bb, st in field_assigns(SB, FM, 'atom_cache_data'):
+                if any(l in d for l in SB._rv_locals(st['rv'])):
+                    sinks.append(bb)
+            adds = [(bb, t) for bb, t in SB.calls() if is_call_to(t, FM + '::add_fragment')]
+            ctx.anchor(len(adds) >= 1, FA + '::start_fragment: add_fragment of the header payload')
+            k = 0
+            for bb, t in adds:
+                k += 1
+                inst = 'start_fragment:add#%d' % k
+                if sinks and SB.all_paths_pass(0, sinks, to_blocks=[bb]):
+                    ctx.ok('C09.7-header-data-kept', inst, 'the message the header payload is added to has received atom_cache_data before', ctx.where(SB, bb))
+                else:
+                    ctx.bad('C09.7-header-data-kept', inst, 'on this way into start_fragment the header\'s atom_cache_data never reaches the message (no FragmentedMessage::new(.., atom_cache_data) and no `msg.atom_cache_data = ..` before the payload is added): '
+                            'a header that arrives after one of its continuations loses its atom-cache section', ctx.where(SB, bb), key='PROV:%s::start_fragment:atom_cache_data-dropped' % FA)
+
+    # every way of constructing an assembler gives it a usable expiry time
+    ctx.rule('C09.4-timeout-initialised', 'every constructor of FragmentAssembler (new, with_timeout, Default) sets fragment_timeout to the default constant or to the caller\'s value: '
+             'a derived Default would make it Duration::ZERO, and the sweep the connection runs on every frame would drop each sequence before its second fragment', floor=2)
+    dflt = [i for i in ctx.F.impls if i['self'] == FA and (i.get('trait') or '') == 'core::default::Default']
+    if dflt and dflt[0].get('derived'):
+        ctx.bad('C09.4-timeout-initialised', 'Default', 'Default for FragmentAssembler is derived: fragment_timeout is Duration::ZERO for FragmentAssembler::default(), so cleanup_expired() discards every incomplete sequence at once and the '
+                'message is never returned', key='CONST:%s:default-zero-timeout' % FA)
+    ctors = [q for q in ctx.F.bodies if q.split('::{')[0] in (FA + '::new', FA + '::with_timeout', '<%s as core::default::Default>::default' % FA)]
+    for q in sorted(ctors):
+        QB = P.B(q)
+        lits = [st for bb, j, st in QB.stmts() if st['k'] == '=' and st['rv']['k'] == 'agg' and st['rv'].get('adt') == FA]
+        delegates = any(is_call_to(t, FA + '::new') or is_call_to(t, FA + '::with_timeout') for bb, t in QB.calls())
+        inst = q.rsplit('::', 1)[1] if not q.startswith('<') else 'Default::default'
+        if lits:
+            rv = lits[0]['rv']
+            op = rv['ops'][rv['fn'].index('fragment_timeout')] if 'fragment_timeout' in rv.get('fn', []) else None
+            good = op is not None and ((op['k'] == 'c' and 'DEFAULT_FRAGMENT_TIMEOUT' in str(op.get('item', op.get('d', '')))) or (op['k'] in ('cp', 'mv') and QB.origin(op)[0] == 'arg'))
+            if good:
+                ctx.ok('C09.4-timeout-initialised', inst, 'fragment_timeout = %s' % ('DEFAULT_FRAGMENT_TIMEOUT' if op['k'] == 'c' else 'the caller\'s value'), ctx.where(QB))
+            else:
+                ctx.bad('C09.4-timeout-initialised', inst, 'fragment_timeout is not initialised from DEFAULT_FRAGMENT_TIMEOUT or the caller\'s value', ctx.where(QB), key='CONST:%s:%s:timeout' % (FA, inst))
+        elif delegates:
+            ctx.ok('C09.4-timeout-initialised', inst, 'delegates to new() / with_timeout()', ctx.where(QB))
+        else:
+            ctx.undecided('C09.4-timeout-initialised', inst, 'construction not recognised')
 
     # ---------------- clause 8: sequence ids stay distinct, content never decides ---------------------------------------
     ctx.rule('C09.8-key-lossless', 'the conversions that turn the wire sequence id into the key of the pending map (SequenceId::new / From<u64> / value and whatever the assembler entry points '
